@@ -62,6 +62,7 @@ class SymCtx:
     self.path_choices = []
     self.violated = set()
     self.trivial = 0
+    self.lemmas = 0
     self.reached = set()
 
   # ---- inputs ----------------------------------------------------------------------------
@@ -177,6 +178,17 @@ class SymCtx:
 
   def note(self, s):
     self.notes.append(s)
+
+  def lemma_pos(self, x, timeout_ms=60000):
+    """proves x > 0 under the path condition once, then lets the engine use it syntactically
+    (no fork on x == 0 in divisions, no negativity branch in sqrt)"""
+    t = _t(x, True)
+    r, _ = solve.prove(self.ex.pc(), t > 0, timeout_ms)
+    if r != 'unsat':
+      raise Inconclusive('positivity lemma not proven (%s)' % r)
+    self.lemmas += 1
+    self.ex.trace.append(('a', t > 0))
+    core.mark_pos(t)
 
   def require(self, name, c, tol=None, detail=None):
     c = _bt(c)
@@ -347,6 +359,10 @@ class ConcCtx:
 
   def note(self, s):
     self.notes.append(s)
+
+  def lemma_pos(self, x, timeout_ms=None):
+    if not float(x) > 0:
+      raise Reject()
 
   def require(self, name, c, tol=None, detail=None):
     ok = bool(c)
